@@ -236,6 +236,9 @@ class Ctx:
                 if pkgname is None:
                     m = re.search(r"^package (\w+)", open(src).read(), re.M)
                     pkgname = m.group(1)
+            if rel == "." and pkgname == "weshnet" and "vf_compat_verif_test.go" not in files:
+                # adaptive wrappers around two unexported helpers the in-package drivers call (see the file's header)
+                rep[os.path.normpath(os.path.join(REPO, rel, "vf_compat_verif_test.go"))] = os.path.join(HARNESS, "root", "vf_compat_verif_test.go")
             if common:
                 tmpl = open(os.path.join(HARNESS, "_common", "vfio_test.go.tmpl")).read()
                 dst = os.path.join(od, rel.replace("/", "_").replace(".", "root") + "_vfio_verif_test.go")
